@@ -13,6 +13,7 @@ VarD(cls, decl, fields) == [cls |-> cls, decl |-> decl, fields |-> fields]
 NVals == << LitI(0), LitI(1) >>
 MVals == << LitI(0), LitI(2) >>
 SVals == << LitS(<<>>), LitS(<<1>>) >>
+OVals == << LitNone, LitI(0) >>           \* the optional field: None given explicitly is a constraint like any other
 \* what the ref field may be constrained to: variable 2, declared plainly or as a nested term
 Nested == << VarD("A", "let", <<>>), VarD("A", "term", <<FC("n", "kw", LitI(1))>>),
              VarD("A", "term", <<FC("n", "pos", LitI(0)), FC("m", "pos", LitI(0))>>), VarD("A", "term", <<FC("n", "pos", LitI(2)), FC("s", "kw", LitS(<<>>))>>) >>
@@ -21,8 +22,8 @@ Opt(vals) == << <<>> >> \o [j \in 1..Len(vals) |-> <<vals[j]>>]
 Styles == << "kw", "pos" >>
 FieldProgs ==
   Cat([sn \in 1..Len(Opt(NVals)) |-> Cat([sm \in 1..Len(Opt(MVals)) |-> Cat([ss \in 1..Len(Opt(SVals)) |->
-  Cat([sr \in 1..(Len(Nested) + 1) |-> Cat([st \in 1..Len(Styles) |->
-    LET on == Opt(NVals)[sn]  om == Opt(MVals)[sm]  os == Opt(SVals)[ss]
+  Cat([sr \in 1..(Len(Nested) + 1) |-> Cat([so \in 1..Len(Opt(OVals)) |-> Cat([st \in 1..Len(Styles) |->
+    LET on == Opt(NVals)[sn]  om == Opt(MVals)[sm]  os == Opt(SVals)[ss]  oo == Opt(OVals)[so]
         style == Styles[st]
         \* positional arguments must form a prefix of the signature: n, then m, then s
         pn == style = "pos" /\ on # <<>>
@@ -31,11 +32,12 @@ FieldProgs ==
         fields == (IF on = <<>> THEN <<>> ELSE <<FC("n", IF pn THEN "pos" ELSE "kw", on[1])>>)
                   \o (IF om = <<>> THEN <<>> ELSE <<FC("m", IF pm THEN "pos" ELSE "kw", om[1])>>)
                   \o (IF os = <<>> THEN <<>> ELSE <<FC("s", IF ps THEN "pos" ELSE "kw", os[1])>>)
+                  \o (IF oo = <<>> THEN <<>> ELSE <<FC("o", "kw", oo[1])>>)
                   \o (IF sr = 1 THEN <<>> ELSE <<FC("ref", "kw", V(2))>>)
         vars == <<VarD("A", "term", fields)>> \o (IF sr = 1 THEN <<>> ELSE <<Nested[sr - 1]>>)
     IN IF style = "pos" /\ ~pn THEN <<>>          \* nothing positional to give: same as the keyword program
        ELSE << [vars |-> vars, desc |-> "entity", sel |-> <<V(1)>>, cond |-> TrueC, flats |-> <<>>, bound |-> <<>>] >>
-  ])])])])])
+  ])])])])])])
 
 \* ---- part "types": hierarchy Base <- Mid <- Leaf, Other is no symbol ----
 Decls == << "let", "from", "term" >>
